@@ -103,7 +103,7 @@ fn probe_for(tiles: &TileMap) -> Vec<Key> {
 pub fn run(ctx: Arc<Ctx>) {
 	ctx.rule(
 		"tile sets: BFS states (depth <= 2) + all non-empty subsets of a 5x2 (quick) / 5x3 (thorough) grid at z=3 and a 3x3 (quick) / 4x3 (thorough) grid at z=4 rows 9..11 (where file names change digit count) + single tiles at level 0 / level 31 corner + zoom gaps; \
-		 x 5 container formats written by the repository's writers; PMTiles archives with run-length entries and shared byte ranges from the independent encoder (every run of ids 1..84, every placement of two equal tiles + another at z=2); pipelines over 2-3 sources with different pyramids. oracle: every tile returned by lookups over a probe superset lies in the advertised pyramid; for mbtiles/pmtiles/tar/directory each level box = bounding box. \
+		 x 5 container formats written by the repository's writers; tar archives whose members are in natural / level-interleaved / hash order (independent encoder); PMTiles archives with run-length entries and shared byte ranges from the independent encoder (every run of ids 1..84, every placement of two equal tiles + another at z=2); pipelines over 2-3 sources with different pyramids. oracle: every tile returned by lookups over a probe superset lies in the advertised pyramid; for mbtiles/pmtiles/tar/directory each level box = bounding box. \
 		 non-trivial = distinct (format, tile set) whose tiles are not a full rectangle",
 	);
 	let work = ct::WorkDir::new("c03");
@@ -171,6 +171,51 @@ pub fn run(ctx: Arc<Ctx>) {
 			ct::cleanup(&w);
 		}
 	});
+	// tar archives as other tools produce them: members of one zoom level scattered over the archive / in hash order
+	{
+		let mut tsets: Vec<(String, TileMap)> = vec![("full pyramid z0..3".into(), tilesets::family_full_pyramid(3))];
+		let mut irr = TileMap::new();
+		for (x, y) in [(3u32, 10u32), (4, 5), (5, 10), (5, 11), (6, 20), (7, 10), (9, 2), (1, 30)] {
+			irr.insert((5, x, y), format!("irr {x} {y}").into_bytes());
+		}
+		for (x, y) in [(0u32, 0u32), (3, 3), (1, 2)] {
+			irr.insert((2, x, y), format!("z2 {x} {y}").into_bytes());
+		}
+		tsets.push(("irregular levels 2 and 5".into(), irr));
+		for (i, m) in grid_subsets(3, 2, 4, 5, 2).into_iter().enumerate().filter(|(i, _)| i % 7 == 0) {
+			let mut m = m;
+			m.insert((4, 9, 9), b"extra".to_vec());
+			m.insert((4, 1, 14), b"extra2".to_vec());
+			tsets.push((format!("grid z3 subset #{i} + two tiles at z4"), m));
+		}
+		let tr = &tsets;
+		let wp = wpath.clone();
+		par_for(tsets.len(), |i| {
+			let (name, tiles) = &tr[i];
+			let rt = tokio::runtime::Builder::new_current_thread().build().unwrap();
+			let probe = probe_for(tiles);
+			for order in 0..3u8 {
+				for dirs in [false, true] {
+					let members: Vec<(String, Vec<u8>)> = tiles.iter().map(|(k, v)| (format!("{}/{}/{}.png", k.0, k.1, k.2), v.clone())).collect();
+					let members = super::c16::tar_member_order(members, order);
+					let path = wp.join(format!("ft{i}_{order}_{dirs}.tar"));
+					std::fs::write(&path, crate::codec::tar_write(&members, crate::codec::TarLayout { dot_prefix: false, dir_entries: dirs, gnu: false, reversed: false, meta_last: false })).unwrap();
+					let w = ct::Written::Path(path);
+					let case = json!({"cont": "tar", "member_order": order, "dir_entries": dirs, "set": name});
+					match ct::open(&rt, Cont::Tar, &w) {
+						Ok(r) => {
+							ctxr.trace(1);
+							check_pyramid(ctxr, &rt, "tar reader (archive of another tool)", &format!("tar member order {order} over '{name}'"), &AnySrc::Reader(r), &probe, true, case);
+							ctxr.nontrivial(fnv_str(&format!("ft{order}{dirs}{name}")));
+						}
+						Err(e) => ctxr.outcome(&format!("tar: reader rejects an archive of another tool (C16's subject): {}", super::c01::norm_msg(&e))),
+					}
+					ct::cleanup(&w);
+				}
+			}
+		});
+		ctx.extra("tar_archives_of_other_tools", json!({"sets": tsets.len(), "member_orders": 3}));
+	}
 	// PMTiles archives as other writers produce them (run-length entries, shared byte ranges): independent encoder
 	{
 		let special = super::c16::pm_special_sets(tier);
